@@ -38,6 +38,7 @@ import glob, os, re, subprocess
 import common
 
 LEAN_MODULES = ['OpusProps.C08']
+EXTENSIONS = ['C08hybrid']   # extension slices merged into this property's check (tools/EXT_BRIEF.md)
 GEN = ['CeltTables', 'SilkEncBits']   # SilkEncBits: encoder-only SILK tables (rate-level bit costs, shell limits); the PVQ table and LAPLACE_* constants used by laplace_pvq_roundtrip (extractor shared with C17)
 SOURCES = ['celt/entenc.c', 'celt/entdec.c', 'celt/entcode.c', 'celt/entcode.h', 'celt/entenc.h', 'celt/entdec.h',
            'celt/mfrngcod.h', 'celt/ecintrin.h', 'celt/arch.h', 'celt/laplace.c', 'celt/laplace.h', 'celt/cwrs.c', 'celt/cwrs.h',
